@@ -1,17 +1,23 @@
 import Spine.Dispatch
+/-! Lemmas and theorems about `Spine.Disp.processCmd` for C01 (exactly the prescribed responses, correctly
+    addressed, to the sender's connection only). The property-level statements are collected in
+    `Spine/Props/C01.lean`. -/
 namespace Spine.Disp
 
 /-- what the SPINE classifier rules prescribe -/
 inductive Resp | reply (fn : Nat) | success | error deriving DecidableEq, Repr
 
-/-- replies and results are responses; requests the stack sends on its own account are not -/
-def kindOf : Out → Option Resp
+/-- replies and results are responses; requests and notifications the stack sends on its own account are not -/
+def respOf : Out → Option Resp
   | .reply _ fn _ _ => some (.reply fn)
   | .result _ 0 _ _ => some .success
   | .result _ (_ + 1) _ _ => some .error
   | _ => none
 
-/-- the specification: exactly these responses, in this order -/
+/-- a response together with the connection it is written to -/
+def kindOf (o : Nat × Out) : Option (Nat × Resp) := (respOf o.2).map fun r => (o.1, r)
+
+/-- the specification: exactly these responses, in this order (all of them to the sender) -/
 def expected (w : W) (p : Nat) (d : Dg) : List Resp :=
   match srcF w p d with
   | none => []                                     -- outside the property: source feature not announced
@@ -22,7 +28,7 @@ def expected (w : W) (p : Nat) (d : Dg) : List Resp :=
     | some lf =>
       if d.cls = .write then
         -- applied only with write permission and binding (C03), then acknowledged if requested
-        if gateOk w p lf d && lf.fds.contains d.fn then (if d.ack then [.success] else []) else [.error]
+        if gateOk w p lf d && lf.fds.contains d.fn && !d.bad then (if d.ack then [.success] else []) else [.error]
       else match handle lf rf d with
         | (some _, _) => [.error]                  -- rejected
         | (none, replied) =>                       -- accepted: the reply if it is a read, the acknowledgement if requested
@@ -34,21 +40,48 @@ def nmReadOnly (w : W) : Prop := ∀ lf ∈ w.loc, lf.nm = true → ∀ o ∈ lf
 /-- the one excluded point: a result addressed to a feature that does not exist -/
 def resultToUnknown (w : W) (d : Dg) : Prop := d.cls = .result ∧ dstF w d = none
 
-theorem handle_err_pos (lf : LF) (rf : RF) (d : Dg) (e : Nat) (b : Bool) (h : handle lf rf d = (some e, b)) :
-    e ≠ 0 := by
-  unfold handle at h
+theorem handleNM_err_pos (d : Dg) (e : Nat) (b : Bool) (h : handleNM d = (some e, b)) : e ≠ 0 := by
+  unfold handleNM at h
   repeat' split at h
   all_goals first | (simp at h; try omega) | skip
   all_goals (try (obtain ⟨h1, _⟩ := h; omega))
 
-theorem kindOf_res_err (d : Dg) (e : Nat) (he : e ≠ 0) : kindOf (res d e) = some .error := by
+theorem handleF_err_pos (lf : LF) (rf : RF) (d : Dg) (e : Nat) (b : Bool) (h : handleF lf rf d = (some e, b)) :
+    e ≠ 0 := by
+  unfold handleF at h
+  repeat' split at h
+  all_goals first | (simp at h; try omega) | skip
+  all_goals (try (obtain ⟨h1, _⟩ := h; omega))
+
+theorem handle_err_pos (lf : LF) (rf : RF) (d : Dg) (e : Nat) (b : Bool) (h : handle lf rf d = (some e, b)) :
+    e ≠ 0 := by
+  unfold handle at h
+  split at h
+  · exact handleNM_err_pos d e b h
+  · exact handleF_err_pos lf rf d e b h
+
+/-- an incoming result that is accepted is never replied to -/
+theorem handle_result_no_reply (lf : LF) (rf : RF) (d : Dg) (hres : d.cls = .result) (replied : Bool)
+    (h : handle lf rf d = (none, replied)) : replied = false := by
+  unfold handle at h
+  split at h
+  · unfold handleNM at h
+    simp only [hres] at h
+    repeat' split at h
+    all_goals simp_all
+  · unfold handleF at h
+    simp only [hres] at h
+    repeat' split at h
+    all_goals simp_all
+
+theorem respOf_res_err (d : Dg) (e : Nat) (he : e ≠ 0) : respOf (res d e) = some .error := by
   cases e with
   | zero => exact absurd rfl he
   | succ n => rfl
 
 theorem gate_false_of_nm (w : W) (p : Nat) (lf : LF) (d : Dg) (hNM : nmReadOnly w) (hmem : lf ∈ w.loc)
     (hnm : lf.nm = true) : gateOk w p lf d = false := by
-  unfold gateOk
+  unfold gateOk writable
   have : (lf.ops.any fun o => decide (o.1 = d.fn) && o.2) = false := by
     rw [List.any_eq_false]
     intro o ho
@@ -58,9 +91,9 @@ theorem gate_false_of_nm (w : W) (p : Nat) (lf : LF) (d : Dg) (hNM : nmReadOnly 
 /-- the responses computed for known source and destination are the prescribed ones -/
 theorem responses_spec (w : W) (p : Nat) (lf : LF) (rf : RF) (d : Dg) (hNM : nmReadOnly w) (hmem : lf ∈ w.loc)
     (hres : d.cls ≠ .result) :
-    (responses w p lf rf d).filterMap kindOf =
+    (responses w p lf rf d).filterMap respOf =
       (if d.cls = .write then
-        if gateOk w p lf d && lf.fds.contains d.fn then (if d.ack then [.success] else []) else [.error]
+        if gateOk w p lf d && lf.fds.contains d.fn && !d.bad then (if d.ack then [.success] else []) else [.error]
       else match handle lf rf d with
         | (some _, _) => [.error]
         | (none, replied) =>
@@ -75,9 +108,10 @@ theorem responses_spec (w : W) (p : Nat) (lf : LF) (rf : RF) (d : Dg) (hNM : nmR
         | false => rfl
         | true => rw [gate_false_of_nm w p lf d hNM hmem h] at hg; cases hg
       simp only [hg, hnm, Bool.not_true, Bool.false_eq_true, if_false, Bool.not_false, if_true, Bool.true_and]
-      by_cases hf : d.fn ∈ lf.fds <;> by_cases ha : d.ack = true <;> simp [hf, ha, kindOf, res]
+      by_cases hf : d.fn ∈ lf.fds <;> by_cases ha : d.ack = true <;> by_cases hb : d.bad = true <;>
+        simp [hf, ha, hb, respOf, res]
     · have hg' : gateOk w p lf d = false := by simpa using hg
-      simp [hg', kindOf, res]
+      simp [hg', respOf, res]
   · -- everything else goes through the feature's verdict
     have hwb : (decide (d.cls = Cls.write)) = false := by simpa using hw
     simp only [hwb, Bool.false_and, Bool.false_eq_true, if_false, hw]
@@ -86,20 +120,52 @@ theorem responses_spec (w : W) (p : Nat) (lf : LF) (rf : RF) (d : Dg) (hNM : nmR
       cases v with
       | some e =>
         have he := handle_err_pos lf rf d e replied hh
-        simp [hres, kindOf_res_err d e he]
+        simp [hres, respOf_res_err d e he]
       | none =>
         have hack : (d.cls = .call || d.cls = .reply || d.cls = .notify) = decide (d.cls ≠ .read) := by
           cases hc : d.cls <;> simp_all
         simp only [List.filterMap_append, hack]
         by_cases hr : replied = true <;> by_cases ha : d.ack = true <;>
-          by_cases hrd : d.cls = .read <;> simp [hr, ha, hrd, kindOf, res]
+          by_cases hrd : d.cls = .read <;> simp [hr, ha, hrd, respOf, res]
 
-/-- C01 (partial): for every world and every datagram that does not trip `PrintMessageOverview`, except a result
-    addressed to a feature that does not exist, the responses the stack emits are exactly those the classifier
-    rules prescribe — no more and no fewer -/
+/-- an incoming result is never answered when its destination exists -/
+theorem responses_result (w : W) (p : Nat) (lf : LF) (rf : RF) (d : Dg) (hres : d.cls = .result) :
+    responses w p lf rf d = [] := by
+  unfold responses
+  have h1 : (decide (d.cls = Cls.write)) = false := by simp [hres]
+  simp only [h1, Bool.false_and, Bool.false_eq_true, if_false]
+  cases hh : handle lf rf d with
+  | mk v replied =>
+    cases v with
+    | some e => simp [hres]
+    | none =>
+      have := handle_result_no_reply lf rf d hres replied hh
+      simp [this, hres]
+
+theorem kindOf_notifs (w : W) (d : Dg) : (notifs w d).filterMap kindOf = [] := by
+  unfold notifs
+  induction (w.subs.filter fun s => s.1 = d.dst) with
+  | nil => rfl
+  | cons s l ih => simpa [List.filterMap_cons, kindOf, respOf] using ih
+
+theorem kindOf_tag (p : Nat) (l : List Out) :
+    (tag p l).filterMap kindOf = (l.filterMap respOf).map fun r => (p, r) := by
+  unfold tag
+  induction l with
+  | nil => rfl
+  | cons o l ih =>
+    simp only [List.map_cons, List.filterMap_cons, kindOf]
+    cases h : respOf o with
+    | none => simpa using ih
+    | some r => simpa using ih
+
+/-- C01 (partial, every member of the family): for every world and every datagram that does not trip
+    `PrintMessageOverview`, except — in members that still answer it — a result addressed to a feature that does not
+    exist, the responses the stack emits are exactly those the classifier rules prescribe, all of them written to
+    the sender's connection — no more and no fewer, and none to any other peer -/
 theorem c01_exact_partial (w : W) (p : Nat) (d : Dg) (hwf : panics d = false) (hNM : nmReadOnly w)
-    (hx : ¬ resultToUnknown w d) :
-    (processCmd w p d).2.filterMap kindOf = expected w p d := by
+    (hx : w.cfg.resultOnResult = true → ¬ resultToUnknown w d) :
+    (processCmd w p d).2.filterMap kindOf = (expected w p d).map fun r => (p, r) := by
   unfold processCmd expected
   cases hsrc : srcF w p d with
   | none => simp
@@ -107,57 +173,62 @@ theorem c01_exact_partial (w : W) (p : Nat) (d : Dg) (hwf : panics d = false) (h
     simp only []
     cases hdst : dstF w d with
     | none =>
-      have hres : d.cls ≠ .result := fun h => hx ⟨h, hdst⟩
-      simp [hres, kindOf, res]
+      by_cases hres : d.cls = .result
+      · have hflag : w.cfg.resultOnResult = false := by
+          cases hf : w.cfg.resultOnResult with
+          | false => rfl
+          | true => exact absurd ⟨hres, hdst⟩ (hx hf)
+        simp [hres, hflag]
+      · simp [hres, kindOf, respOf, res]
     | some lf =>
       have hmem : lf ∈ w.loc := List.mem_of_find?_eq_some hdst
       simp only [hwf, Bool.false_eq_true, if_false]
       by_cases hres : d.cls = .result
       · -- an incoming result is never answered
-        have hresp : responses w p lf rf d = [] := by
-          unfold responses
-          have h1 : (decide (d.cls = Cls.write)) = false := by simp [hres]
-          simp only [h1, Bool.false_and, Bool.false_eq_true, if_false]
-          cases hh : handle lf rf d with
-          | mk v replied =>
-            cases v with
-            | some e => simp [hres]
-            | none =>
-              have : replied = false := by
-                unfold handle at hh
-                simp only [hres] at hh
-                repeat' split at hh
-                all_goals simp_all
-              simp [this, hres]
+        have hresp : responses w p lf rf d = [] := responses_result w p lf rf d hres
         have hwr : wantsRead w p lf rf d = false := by simp [wantsRead, hres]
-        simp [hresp, hwr, hres]
+        have happ : applies w p lf d = false := by simp [applies, hres]
+        simp [hresp, hwr, hres, happ, tag]
       · have hsp := responses_spec w p lf rf d hNM hmem hres
         simp only [hres, if_false]
+        have houts : ((if applies w p lf d = true then notifs w d else []) ++ tag p (responses w p lf rf d)).filterMap kindOf
+            = ((responses w p lf rf d).filterMap respOf).map fun r => (p, r) := by
+          rw [List.filterMap_append, kindOf_tag]
+          split <;> simp [kindOf_notifs]
         split
         · rename_i hwr
-          cases hreq : request (sendN (answered (w.peers p) d.ref) (responses w p lf rf d).length) d.src d.fn with
+          cases hreq : request ((bump (record (setPeer w p (answered (w.peers p) d.ref)) (applies w p lf d) d)
+              ((if applies w p lf d = true then notifs w d else []) ++ tag p (responses w p lf rf d))).peers p) d.src d.fn with
           | mk pr' sent =>
-            simp only [List.filterMap_append, hsp]
-            cases sent <;> simp [kindOf]
-        · simp only [hsp]
+            simp only [List.filterMap_append, houts, hsp]
+            cases sent <;> simp [kindOf, respOf]
+        · simp only [houts, hsp]
+
+/-- C01 for the repaired member (`resultOnResult` off): no exclusion left -/
+theorem c01_exact (w : W) (p : Nat) (d : Dg) (hcfg : w.cfg.resultOnResult = false) (hwf : panics d = false)
+    (hNM : nmReadOnly w) :
+    (processCmd w p d).2.filterMap kindOf = (expected w p d).map fun r => (p, r) :=
+  c01_exact_partial w p d hwf hNM (fun h => by rw [hcfg] at h; cases h)
+
+def refW : W := { loc := [], peers := fun _ => { feats := [⟨[0], 0, [], 0, .special⟩], msgNum := 0, req := [] }, binds := [] }
+def refD : Dg := ⟨([0], 0), ([9], 9), 7, some 3, .result, false, 900, false⟩
 
 /-- the full statement is false of the code as it is: a result to an unknown feature is answered with a result -/
 theorem c01_exact_refuted :
-    ∃ (w : W) (p : Nat) (d : Dg), panics d = false ∧ nmReadOnly w ∧
-      (processCmd w p d).2.filterMap kindOf ≠ expected w p d := by
-  refine ⟨{ loc := [], peers := fun _ => { feats := [⟨[0], 0, []⟩], msgNum := 0, req := [] }, binds := [] }, 1,
-    ⟨([0], 0), ([9], 9), 7, some 3, .result, false, 900⟩, by decide, ?_, by decide⟩
+    ∃ (w : W) (p : Nat) (d : Dg), w.cfg = {} ∧ panics d = false ∧ nmReadOnly w ∧
+      (processCmd w p d).2.filterMap kindOf ≠ (expected w p d).map fun r => (p, r) := by
+  refine ⟨refW, 1, refD, rfl, by decide, ?_, by decide⟩
   intro lf hlf; cases hlf
 
-/-- a response references the request's counter, is addressed to the request's source and names the addressed
-    feature as its source -/
-def addressed (d : Dg) : Out → Prop
-  | .reply r _ s t => r = d.ctr ∧ s = d.dst ∧ t = d.src
-  | .result r _ s t => r = d.ctr ∧ s = d.dst ∧ t = d.src
+/-- a response is written to the sender's connection, references the request's counter, is addressed to the
+    request's source and names the addressed feature as its source -/
+def addressed (p : Nat) (d : Dg) : Nat × Out → Prop
+  | (q, .reply r _ s t) => q = p ∧ r = d.ctr ∧ s = d.dst ∧ t = d.src
+  | (q, .result r _ s t) => q = p ∧ r = d.ctr ∧ s = d.dst ∧ t = d.src
   | _ => True
 
 theorem responses_addressed (w : W) (p : Nat) (lf : LF) (rf : RF) (d : Dg) :
-    ∀ o ∈ responses w p lf rf d, addressed d o := by
+    ∀ o ∈ responses w p lf rf d, addressed p d (p, o) := by
   intro o ho
   unfold responses at ho
   repeat' split at ho
@@ -169,29 +240,73 @@ theorem responses_addressed (w : W) (p : Nat) (lf : LF) (rf : RF) (d : Dg) :
   all_goals (try simp [addressed, res])
   all_goals (try (exact absurd ho (by simp)))
 
-/-- C01, addressing: every response references the request's counter, is addressed to the request's source and
-    names the addressed feature as its source -/
-theorem c01_addressing (w : W) (p : Nat) (d : Dg) (o : Out) (ho : o ∈ (processCmd w p d).2) : addressed d o := by
+theorem notifs_addressed (w : W) (p : Nat) (d : Dg) : ∀ o ∈ notifs w d, addressed p d o := by
+  intro o ho
+  unfold notifs at ho
+  simp only [List.mem_map] at ho
+  obtain ⟨s, _, rfl⟩ := ho
+  trivial
+
+theorem tag_addressed (w : W) (p : Nat) (lf : LF) (rf : RF) (d : Dg) :
+    ∀ o ∈ tag p (responses w p lf rf d), addressed p d o := by
+  intro o ho
+  unfold tag at ho
+  simp only [List.mem_map] at ho
+  obtain ⟨o', ho', rfl⟩ := ho
+  exact responses_addressed w p lf rf d o' ho'
+
+/-- C01, addressing (every member): every response is written to the sender's connection, references the
+    request's counter, is addressed to the request's source and names the addressed feature as its source -/
+theorem c01_addressing (w : W) (p : Nat) (d : Dg) (o : Nat × Out) (ho : o ∈ (processCmd w p d).2) :
+    addressed p d o := by
   unfold processCmd at ho
   cases hsrc : srcF w p d with
   | none => simp [hsrc] at ho
   | some rf =>
     simp only [hsrc] at ho
     cases hdst : dstF w d with
-    | none => simp only [hdst, List.mem_singleton] at ho; subst ho; simp [addressed, res]
+    | none =>
+      simp only [hdst] at ho
+      split at ho
+      · simp at ho
+      · simp only [List.mem_singleton] at ho; subst ho; simp [addressed, res]
     | some lf =>
       simp only [hdst] at ho
+      have houts : ∀ o ∈ (if applies w p lf d = true then notifs w d else []) ++ tag p (responses w p lf rf d),
+          addressed p d o := by
+        intro o ho
+        rw [List.mem_append] at ho
+        rcases ho with ho | ho
+        · split at ho
+          · exact notifs_addressed w p d o ho
+          · simp at ho
+        · exact tag_addressed w p lf rf d o ho
       split at ho
       · simp only [List.mem_singleton] at ho; subst ho; trivial
       · split at ho
-        · cases hreq : request (sendN (answered (w.peers p) d.ref) (responses w p lf rf d).length) d.src d.fn with
+        · cases hreq : request ((bump (record (setPeer w p (answered (w.peers p) d.ref)) (applies w p lf d) d)
+              ((if applies w p lf d = true then notifs w d else []) ++ tag p (responses w p lf rf d))).peers p) d.src d.fn with
           | mk pr' sent =>
             simp only [hreq, List.mem_append] at ho
             rcases ho with ho | ho
-            · exact responses_addressed w p lf rf d o ho
+            · exact houts o (List.mem_append.mpr ho)
             · cases sent
               · simp at ho
               · simp only [if_true, List.mem_singleton] at ho; subst ho; trivial
-        · exact responses_addressed w p lf rf d o ho
+        · exact houts o ho
+
+/-! ### node-management calls and entity notifications: exactly the acknowledgement or exactly one error -/
+
+/-- a binding / subscription call is answered with exactly one error when refused and with exactly the requested
+    acknowledgement when accepted, on the caller's connection -/
+theorem c01_call (w : W) (p : Nat) (ctr : Nat) (ack : Bool) (k : Call) (hc : connected w p = true) :
+    (processCall w p ctr ack k).2.filterMap kindOf =
+      if callOk w p k then (if ack then [(p, Resp.success)] else []) else [(p, Resp.error)] := by
+  unfold processCall
+  simp only [hc, Bool.not_true, Bool.false_eq_true, if_false]
+  by_cases hk : callOk w p k = true
+  · cases ack <;> simp [hk, kindOf, respOf]
+  · have hk' : callOk w p k = false := by simpa using hk
+    simp [hk', kindOf, respOf]
 
 end Spine.Disp
